@@ -32,6 +32,9 @@
 (*   AlterIdxRecheck alterIndex re-checks readiness after a failed request   *)
 (*   DropGuarded     a drop is not executed against an incarnation newer     *)
 (*                   than its stamp                                          *)
+(*   GcPrefix        (negative control) a drop garbage-collects records by   *)
+(*                   key prefix: the drop of c1 forgets the records of the   *)
+(*                   partitions of its sibling c1_x (PrefixPairs)            *)
 (*   ProbeAfterDrop  TRUE = as built: both times recorded, create < drop < t *)
 (*                   (the known incarnation is gone, the operation is newer   *)
 (*                   than its drop) is "unknown" = probe; FALSE (negative     *)
@@ -57,6 +60,13 @@ CONSTANTS MaxT,            \* source clock bound
           CreateFromDrop,  \* TRUE = as built: a successful probe records "created right after the known drop";
                            \* FALSE (negative control): it records the stamp of the probing operation
           ProbeAfterDrop,  \* TRUE = as built: create < drop < t (both recorded) is "unknown"; FALSE (negative control): "created"
+          PrefixPairs,     \* name universe: pairs "a<b" of names (of one level) such that a followed by '_' starts b ("c1<c1_x"): the
+                           \* writer's record keys are "<db>_<collection>[_<partition>]" with '_' as the only separator, so the keys of
+                           \* everything under b start with the key of a followed by '_' (no two keys of the universe are equal)
+          BareColls,       \* collections that never get partitions of their own (keeps the two-collection configurations small)
+          GcPrefix,        \* negative control (FALSE = as built: records are kept and looked up by their exact key): an executed drop
+                           \* garbage-collects the records below the dropped object by KEY PREFIX, which also erases the records below
+                           \* a sibling whose name is prefix-related
           TabT             \* part (a): time domain of the decision table
 
 Unk == -1
@@ -193,14 +203,21 @@ StaleHit(k, o, t, dn) ==
     \E i \in 1..(IF IsCreate(k) THEN Len(o) - 1 ELSE Len(o)) :
         Prefix(o, i) # DefaultObj /\ dn[Prefix(o, i)] > t
 
+\* control GcPrefix: the records erased by an executed drop of o - everything strictly below a sibling of o (same level, same
+\* parents) whose name starts with o's name followed by '_'
+GcErased(o, x) == /\ GcPrefix /\ Len(x) > Len(o)
+                  /\ Prefix(x, Len(o) - 1) = Prefix(o, Len(o) - 1)
+                  /\ (o[Len(o)] \o "<" \o x[Len(o)]) \in PrefixPairs
+GcTab(k, o, tab) == IF GcPrefix /\ IsDrop(k) THEN [x \in Obj |-> IF GcErased(o, x) THEN Unk ELSE tab[x]] ELSE tab
+
 \* the request and what follows it
 CallPost(k, o, t, fail, tc, td, dn) ==
     LET needOK == \A i \in 1..NeedLen(k, o) : ExistsLevel(Prefix(o, i), dn)
         guard  == DropGuarded /\ IsDrop(k) /\ dn[o] > t
     IN  IF guard THEN [ok |-> TRUE, issued |-> FALSE, executed |-> FALSE, stale |-> FALSE, tc |-> tc, td |-> td, dn |-> dn]
         ELSE IF ~fail /\ needOK
-        THEN [ok |-> TRUE, issued |-> TRUE, executed |-> TRUE, stale |-> StaleHit(k, o, t, dn), tc |-> tc,
-              td |-> IF IsDrop(k) THEN [td EXCEPT ![o] = t] ELSE td, dn |-> ApplyDown(k, o, t, dn)]
+        THEN [ok |-> TRUE, issued |-> TRUE, executed |-> TRUE, stale |-> StaleHit(k, o, t, dn), tc |-> GcTab(k, o, tc),
+              td |-> IF IsDrop(k) THEN GcTab(k, o, [td EXCEPT ![o] = t]) ELSE td, dn |-> ApplyDown(k, o, t, dn)]
         ELSE IF Recheck(k)
              THEN LET r == WC(o, 1, DChainLen(k, o), t, tc, td, dn) IN
                   [ok |-> r.res = "skip", issued |-> TRUE, executed |-> FALSE, stale |-> FALSE, tc |-> r.tc,
@@ -276,6 +293,7 @@ Src(cls, o) ==
            [] cls = "drop"   -> /\ sb[o] # 0
                                 /\ (Len(o) = 1 => \A x \in ObjColl : IsUnder(x, o) => sb[x] = 0)
            [] cls = "use"    -> sb[o] # 0
+    /\ (Len(o) = 3 => o[2] \notin BareColls)
     /\ clock' = clock + 1
     /\ sb' = CASE cls = "create" -> [sb EXCEPT ![o] = clock + 1]
                [] cls = "drop" -> [x \in Obj |-> IF IsUnder(x, o) THEN 0 ELSE sb[x]]
